@@ -155,7 +155,7 @@ func poolBody(c pcfg) func() {
 		if errs := logErrors(); errs != "" {
 			fails = append(fails, "logged-error|nbio logged an error (a recovered panic?): "+errs)
 		}
-		cli.Close()
+		// the Client is not closed: Close walks its maps in Go's random order, which the exploration must not depend on
 		for _, f := range fails {
 			vsched.Fail("%s", f)
 		}
@@ -186,8 +186,12 @@ func poolScenarios(thorough bool) []pcfg {
 			if thorough {
 				c.p = 2
 			}
-			if c.callers == 2 && m != ekit.ET && !thorough {
-				continue
+			if c.callers == 2 {
+				// two callers: one preemption in both tiers (two take the 15-minute budget)
+				c.p = 1
+				if m != ekit.ET && !thorough {
+					continue
+				}
 			}
 			out = append(out, c)
 		}
